@@ -43,6 +43,12 @@ ANCHORED = {
     "[cH]":   ("C", 1, 0, True, None, (2,)),
     "[n-]":   ("N", 0, -1, False, None, (2,)),
     "[bH-]":  ("B", 1, -1, True, None, (2,)),
+    # satisfied by substituents (sigma + exocyclic bonds use up the element's higher standard valence): no ring double bond
+    "s=O":    ("S", None, 0, False, "=O", (2,)),       # thiophene-1-oxide type
+    "se=O":   ("Se", None, 0, False, "=O", (2,)),
+    "p=O,R":  ("P", None, 0, False, "=O,R", (2,)),     # phosphole-oxide type
+    # N-oxide in the pentavalent spelling: sigma + exocyclic bonds give 4, the ring double bond makes 5
+    "n=O":    ("N", None, 0, True, "=O", (2,)),
 }
 EXOTIC = {
     "[si]":   ("Si", 0, 0, None, None, (2, 3)),
@@ -171,6 +177,12 @@ def build(rng, n, edges, deg, kinds_for, extra_subst=0.25, p_isotope=0.04):
         elif sub == "=X":
             w = m.add_atom(GAtom(rng.choice(["O", "S", "N"])))
             m.add_bond(v, w, 2)
+        elif sub in ("=O", "=O,R"):
+            w = m.add_atom(GAtom("O"))
+            m.add_bond(v, w, 2)
+            if sub == "=O,R":
+                w = m.add_atom(GAtom("C"))
+                m.add_bond(v, w, 1)
         elif sub == "=X=X":
             for _ in range(2):
                 w = m.add_atom(GAtom("O"))
